@@ -27,7 +27,8 @@ EXPLANATION = (
     "R-IDX(driver) - in one_pop..five_pops the sweep of axis k receives nu_k, m_k., gamma_k, h_k, the common time step and the "
     "delj switch, _compute_dt receives the same, every time-varying parameter is refreshed at next_t, injection precedes the "
     "sweeps, axes are swept in order, and the constant dispatch tests every parameter it forwards; (5) the Thomas solver is "
-    "the reference recurrence and its float sibling agrees. Round-off-level agreement and the compiled object code are not decided.")
+    "the reference recurrence and its float sibling agrees. Round-off-level agreement and the compiled object code are not decided."
+    ' R-CTYPE also covers quotients of two integer-typed operands (truncated by C). R-LAYOUT (shared with C20/C04): every array handed to a compiled kernel is owned and C-contiguous, because the wrappers pass phi.data as a C-ordered block.')
 TECHNIQUE = "sibling templates over a C-subset parser + rational-function normal forms (C == Python == reference derived from the flux form)"
 DECLINED = ["entry-by-entry agreement at round-off level", "behaviour of the compiled object code (trusted: built from the analysed sources)",
             "floating-point stability of the Thomas recurrence"]
